@@ -100,8 +100,10 @@ def evaluate(case, infos, calls, findings, cr, processed_name, processed_text=""
     lang = case["lang"]
     V = []
     errors, warns, benign = M.classify_diagnostics(cr["diag"] or "", processed_name)
-    for flag, line in warns:
-        V.append(("compile_warning:%s:%s" % (lang, flag), line))
+    if cr["compiled"]:
+        # (warnings of a translation unit that does not compile are cascades of its first error, which is reported below)
+        for flag, line in warns:
+            V.append(("compile_warning:%s:%s" % (lang, flag), line))
     for kind, info, w, desc in findings:
         if kind == "self_return_type_mismatch":
             V.append(("self_return_type_mismatch:%s:%s" % (lang, form_of(info)), desc))
